@@ -1,5 +1,6 @@
 import GqlVerif.Props.C04
 open GqlVerif.C04
+#print axioms GqlVerif.C01.ser_fields_iff
 #print axioms variables_fields_are_declared
 #print axioms variable_type_rule
 #print axioms non_null_never_null
@@ -9,3 +10,8 @@ open GqlVerif.C04
 #print axioms oneof_single_key
 #print axioms unit_variables_null
 #print axioms unit_struct_is_null
+#print axioms GqlVerif.C01.ser_keys_exact
+#print axioms GqlVerif.C01.ser_keys_nodup
+#print axioms GqlVerif.C01.ser_keys_all
+#print axioms GqlVerif.C01.oneof_keys
+#print axioms GqlVerif.C01.ser_conforms
